@@ -46,8 +46,22 @@ fn main() {
         let ev = match v["kind"].as_str().unwrap() {
             "sh" => {
                 let stages = v["stages"].as_array().unwrap();
-                let (out, dbg, dbg_expected) = if stages.len() == 1 {
-                    let e = exec_of(&stages[0]);
+                // "odd_env": the process environment holds a variable that is not valid UTF-8 (legal on Unix)
+                let odd = v["odd_env"].as_bool().unwrap_or(false);
+                if odd {
+                    use std::os::unix::ffi::OsStrExt;
+                    std::env::set_var("VERIF_ODD_VAR", std::ffi::OsStr::from_bytes(b"caf\xe9 \xff\xfe"));
+                }
+                let hook = std::panic::take_hook();
+                std::panic::set_hook(Box::new(|_| {}));
+                let rendered = std::panic::catch_unwind(|| if stages.len() == 1 {
+                    let mut e = exec_of(&stages[0]);
+                    // "env": the command carries environment settings; they are shown as NAME=value words in front
+                    if let Some(l) = v["env"].as_array() {
+                        for kv in l {
+                            e = e.env(kv[0].as_str().unwrap(), kv[1].as_str().unwrap());
+                        }
+                    }
                     let o = e.to_cmdline_lossy();
                     let d = format!("{:?}", e);
                     let x = format!("Exec {{ {} }}", o);
@@ -62,7 +76,13 @@ fn main() {
                     let o = d.strip_prefix("Pipeline { ").and_then(|x| x.strip_suffix(" }")).unwrap_or("\u{0}").to_string();
                     let x = d.clone();
                     (o, d, x)
-                };
+                });
+                std::panic::set_hook(hook);
+                if odd {
+                    std::env::remove_var("VERIF_ODD_VAR");
+                }
+                // (a rendering that panics has produced nothing a shell could read back)
+                let (out, dbg, dbg_expected) = rendered.unwrap_or(("\u{0}".to_string(), "panic".to_string(), "".to_string()));
                 // ask the real shell (only when the program is our reporting child)
                 let mut sh_argvs: Vec<Value> = vec![];
                 let mut asked = false;
@@ -85,8 +105,12 @@ fn main() {
                         }
                     }
                 }
-                json!({"e":"shcase","id":v["id"],"stages":v["stages"],"out":cps(&out),"debug_matches":dbg == dbg_expected,
-                    "asked_sh":asked,"sh_runs":sh_argvs.len(),"sh_argv": sh_argvs.get(0).cloned().unwrap_or(json!([]))})
+                let mut ev = json!({"e":"shcase","id":v["id"],"stages":v["stages"],"out":cps(&out),"debug_matches":dbg == dbg_expected,
+                    "asked_sh":asked,"sh_runs":sh_argvs.len(),"sh_argv": sh_argvs.get(0).cloned().unwrap_or(json!([]))});
+                if v["env"].is_array() {
+                    ev["env"] = json!(v["env"].as_array().unwrap().len());
+                }
+                ev
             }
             "win" => {
                 let argv: Vec<winshim::OsString> = v["argv"].as_array().unwrap().iter()
